@@ -218,6 +218,24 @@ public:
                 GenWopn gw = genWopn(br, bo);
                 for(int s = 0; s < 2; ++s) { std::vector<GenBank> &bs = s ? gw.perc : gw.mel; for(size_t j = 0; j < bs.size(); ++j) { bs[j].msb &= 127; bs[j].lsb &= 127; } }
                 std::vector<uint8_t> img = writeWopn(gw);
+                // a third of the loads hand in a damaged image (cut short, or a broken magic): a load that reports failure created and loaded nothing, so the
+                // map - and every handle into it - must be what it was ("present exactly if created or loaded and not since removed")
+                Rng bf(mix64((uint64_t)p.get("bankseed") + i, 0xFA11));
+                if(bf.chance(0.34))
+                {
+                    std::vector<uint8_t> bad = img;
+                    if(bf.chance(0.7)) bad.resize((size_t)bf.range(0, (int64_t)img.size() - 1)); else bad[(size_t)bf.range(0, 9)] ^= 0x55;
+                    if(opn2_openBankData(dev, bad.data(), (long)bad.size()) != 0)
+                    {
+                        run.count("rejected_load_leaves_map");
+                        std::map<uint32_t, int> seen; OPN2_Bank b; int n = 0;
+                        if(opn2_getFirstBank(dev, &b) == 0) { do { OPN2_BankId got; opn2_getBankId(dev, &b, &got); seen[k32(got)]++; if(++n > 70000) break; } while(opn2_getNextBank(dev, &b) == 0); }
+                        if(seen.size() != ref.size()) run.fail("rejected-load-changed-map", mName(o.kind), "after a bank load that reported failure iteration visits " + std::to_string(seen.size()) + " banks, the map held " + std::to_string(ref.size()));
+                        for(Ref::iterator it = ref.begin(); it != ref.end() && !run.failed(); ++it) if(!seen.count(it->first)) run.fail("rejected-load-changed-map", mName(o.kind), "bank " + std::to_string(it->first) + " is gone after a bank load that reported failure");
+                        break;
+                    }
+                    // (an image that is still accepted, e.g. a flipped version byte, is not this property's business: load the intact one on top)
+                }
                 if(opn2_openBankData(dev, img.data(), (long)img.size()) != 0) { run.fail("valid-bank-rejected", mName(o.kind), opn2_errorInfo(dev)); break; }
                 ref.clear(); handle.clear();
                 for(int s = 0; s < 2; ++s)
